@@ -52,46 +52,58 @@ Section SumInstrument.
   Let k := kind_of c i.
   Hypothesis Hk : is_last k = false.
 
-  (* ---------------------------------------------------------------- Observe on a sum instrument without repeated attribute sets *)
+  (* ---------------------------------------------------------------- Observe on a sum instrument: per attribute set the last report
+     of the collection is the new total, and the pending difference grows by (last report - previous total) *)
+  Lemma record_sum : forall clk m S a,
+    (forall b, st_cum S b = None -> st_delta S b = None) ->
+    (forall v, m a = Some v -> 0 <= v \/ is_mono k = false) ->
+    st_cum (record k clk m S) a = match m a with Some v => Some (mk_agg v 0 false) | None => st_cum S a end /\
+    val (st_delta (record k clk m S)) a = match m a with Some v => v - val (st_cum S) a + val (st_delta S) a | None => val (st_delta S) a end /\
+    some (st_delta (record k clk m S)) a = match m a with Some _ => true | None => some (st_delta S) a end.
+  Proof.
+    intros clk m S a Hcd Hpos. unfold val, some, get_def. cbn [record st_cum st_delta]. destruct (m a) as [v|]; [|repeat split].
+    rewrite (agg_new_sum k Hk _ _ (Hpos v eq_refl)). cbn [is_none negb]. split; [reflexivity|]. split; [|reflexivity].
+    destruct (st_cum S a) as [prev|] eqn:Ec.
+    - destruct (st_delta S a) as [p|]; unfold merge, diff; rewrite Hk; cbn [a_val agg0]; lia.
+    - rewrite (Hcd a Ec). cbn [a_val agg0]. lia.
+  Qed.
+
   Lemma obs_sum : forall w step cbs clk S,
-    has_dup (map fst (reports cbs w i)) = false ->
+    (forall b, st_cum S b = None -> st_delta S b = None) ->
     (forall a v, In (a, v) (reports cbs w i) -> 0 <= v \/ is_mono k = false) ->
     st_unrep (obs_i c i w cbs clk step S) = st_unrep S /\ st_last (obs_i c i w cbs clk step S) = st_last S /\
     forall a, In a attrs ->
       st_cum (obs_i c i w cbs clk step S) a =
         match last_report (reports cbs w i) a with Some v => Some (mk_agg v 0 false) | None => st_cum S a end /\
-      st_delta (obs_i c i w cbs clk step S) a =
+      val (st_delta (obs_i c i w cbs clk step S)) a =
         match last_report (reports cbs w i) a with
-        | Some v => Some (mk_agg (v - val (st_cum S) a) 0 false)
-        | None => st_delta S a
-        end.
+        | Some v => v - val (st_cum S) a + val (st_delta S) a
+        | None => val (st_delta S) a
+        end /\
+      some (st_delta (obs_i c i w cbs clk step S)) a =
+        match last_report (reports cbs w i) a with Some _ => true | None => some (st_delta S) a end.
   Proof.
-    intros w step. induction cbs as [|[[j f] s] cbs IH]; intros clk S Hnd Hpos.
-    - cbn [obs_i reports flat_map last_report]. split; [reflexivity|split; [reflexivity|intros a _; split; reflexivity]].
-    - rewrite reports_cons in Hnd, Hpos. cbn [fst snd] in Hnd, Hpos. cbn [obs_i].
+    intros w step. induction cbs as [|[[j f] s] cbs IH]; intros clk S Hcd Hpos.
+    - cbn [obs_i reports flat_map last_report]. split; [reflexivity|split; [reflexivity|intros a _; repeat split]].
+    - rewrite reports_cons in Hpos. cbn [fst snd] in Hpos. cbn [obs_i].
       destruct (Nat.eqb j i) eqn:Ej.
-      + rewrite map_app in Hnd. apply has_dup_app in Hnd as (Hd1 & Hd2 & Hdis).
-        assert (Hpos2 : forall a v, In (a, v) (reports cbs w i) -> 0 <= v \/ is_mono k = false).
+      + assert (Hpos2 : forall a v, In (a, v) (reports cbs w i) -> 0 <= v \/ is_mono k = false).
         { intros a v H. apply (Hpos a v). apply in_or_app. now right. }
-        destruct (IH (clk + step) (record (kind_of c i) (clk + step) (w s) S) Hd2 Hpos2) as (Hu & Hl & Ha).
-        rewrite Hu, Hl. cbn [record st_unrep st_last]. split; [reflexivity|split; [reflexivity|]]. intros a Hin.
-        destruct (Ha a Hin) as [Hc Hd]. rewrite Hc, Hd. clear Hc Hd Ha IH.
+        assert (Hpos1 : forall a, In a attrs -> forall v, w s a = Some v -> 0 <= v \/ is_mono k = false).
+        { intros a Hin v Ew. apply (Hpos a v). apply in_or_app. left. unfold meas_list. apply in_flat_map. exists a. split; [exact Hin|]. rewrite Ew. now left. }
+        set (S1 := record (kind_of c i) (clk + step) (w s) S).
+        assert (Hcd1 : forall b, st_cum S1 b = None -> st_delta S1 b = None).
+        { intros b. unfold S1. cbn [record st_cum st_delta]. destruct (w s b); [discriminate|apply Hcd]. }
+        destruct (IH (clk + step) S1 Hcd1 Hpos2) as (Hu & Hl & Ha).
+        rewrite Hu, Hl. unfold S1 at 1 2. cbn [record st_unrep st_last]. split; [reflexivity|split; [reflexivity|]]. intros a Hin.
+        destruct (Ha a Hin) as (Hc & Hv & Hs). rewrite Hc, Hv, Hs. clear Hc Hv Hs Ha IH.
         rewrite reports_cons. cbn [fst snd]. rewrite Ej, last_report_app, last_report_meas by exact Hin.
+        destruct (record_sum (clk + step) (w s) S a Hcd (Hpos1 a Hin)) as (Rc & Rv & Rs). fold k in S1. fold S1 in Rc, Rv, Rs.
         destruct (last_report (reports cbs w i) a) as [v|] eqn:El.
-        * (* reported later in this collection: the head callback did not report it *)
-          assert (Hw : w s a = None).
-          { destruct (w s a) eqn:E; [|reflexivity]. exfalso. apply (Hdis a).
-            - apply last_report_in. rewrite last_report_meas by exact Hin. congruence.
-            - apply last_report_in. congruence. }
-          cbn [record st_cum]. unfold val, get_def. cbn [st_cum]. rewrite Hw. split; reflexivity.
-        * cbn [record st_cum st_delta]. destruct (w s a) as [v|] eqn:Ew; [|split; reflexivity].
-          assert (Hv : 0 <= v \/ is_mono k = false).
-          { apply (Hpos a v). apply in_or_app. left. unfold meas_list. apply in_flat_map. exists a. split; [exact Hin|]. rewrite Ew. now left. }
-          fold k. rewrite (agg_new_sum k Hk _ _ Hv). split; [reflexivity|].
-          unfold val, get_def. destruct (st_cum S a) as [prev|].
-          -- unfold diff. rewrite Hk. reflexivity.
-          -- cbn [a_val agg0]. now rewrite Z.sub_0_r.
-      + cbn [app] in Hnd, Hpos. rewrite reports_cons. cbn [fst snd]. rewrite Ej. cbn [app]. now apply IH.
+        * split; [reflexivity|]. split; [|reflexivity]. rewrite Rv. unfold val at 1. unfold get_def. rewrite Rc.
+          destruct (w s a) as [v1|]; [cbn [a_val]; lia|reflexivity].
+        * rewrite Rc, Rv, Rs. destruct (w s a); repeat split.
+      + cbn [app] in Hpos. rewrite reports_cons. cbn [fst snd]. rewrite Ej. cbn [app]. now apply IH.
   Qed.
 
   (* ---------------------------------------------------------------- buildMetrics on the merge path, read per attribute set *)
@@ -161,6 +173,7 @@ Section SumInstrument.
   Record SumInv (S : storage) (lat : Z -> option Z) (base : nat -> Z -> Z) (tch : nat -> Z -> bool) : Prop := {
     si_delta : forall a, In a attrs -> st_delta S a = None;
     si_cum : forall a, In a attrs -> st_cum S a = option_map (fun v => mk_agg v 0 false) (lat a);
+    si_cd : forall b, st_cum S b = None -> st_delta S b = None;
     si_tl : forall r a, In a attrs -> tch r a = true -> lat a <> None;
     si_fast : fastcfg c = true -> forall a, In a attrs -> base O a = lv lat a /\ tch O a = false;
     si_multi : fastcfg c = false -> forall r, (r < nreaders c)%nat -> forall a, In a attrs ->
@@ -188,8 +201,8 @@ Section SumInstrument.
   Theorem sum_collect : forall w step cbs clk S lat base tch r,
     SumInv S lat base tch ->
     (r < nreaders c)%nat ->
-    has_dup (map fst (reports cbs w i)) = false ->
     (forall a v, In (a, v) (reports cbs w i) -> 0 <= v \/ is_mono k = false) ->
+    (forall b, st_cum S b = None -> st_delta S b = None) ->
     let rep := reports cbs w i in
     let S1 := obs_i c i w cbs clk step S in
     let S2 := fst (collect_storage k (nreaders c) r (cumulative c r) S1) in
@@ -202,20 +215,21 @@ Section SumInstrument.
     | Some m => forall a, In a attrs -> option_map (point_of k) (m a) = exp_sum r lat1 base tch1 a
     end.
   Proof.
-    intros w step cbs clk S lat base tch r Inv Hr Hnd Hpos rep S1 S2 out lat1 tch1.
-    destruct (obs_sum w step cbs clk S Hnd Hpos) as (Hu & Hl & Ha). fold S1 in Hu, Hl, Ha. fold rep in Ha.
+    intros w step cbs clk S lat base tch r Inv Hr Hpos Hcd rep S1 S2 out lat1 tch1.
+    destruct (obs_sum w step cbs clk S Hcd Hpos) as (Hu & Hl & Ha). fold S1 in Hu, Hl, Ha. fold rep in Ha.
     (* the table handed to the temporal storage, per attribute set *)
     set (D := st_delta S1).
     assert (HD : forall a, In a attrs ->
               val D a = lv lat1 a - lv lat a /\ some D a = negb (is_none (last_report rep a)) /\
               (last_report rep a = None -> lat1 a = lat a)).
-    { intros a Hin. destruct (Ha a Hin) as [_ Hd]. unfold D, val, some, get_def, lat1, lat_after, lv. rewrite Hd.
-      destruct (last_report rep a) as [v|].
-      - cbn [a_val is_none negb]. unfold val, get_def. rewrite (si_cum _ _ _ _ Inv a Hin).
-        destruct (lat a); cbn [option_map a_val agg0]; repeat split; try flia; discriminate.
-      - rewrite (si_delta _ _ _ _ Inv a Hin). cbn [a_val agg0 is_none negb]. repeat split; flia. }
+    { intros a Hin. destruct (Ha a Hin) as (_ & Hv & Hs). unfold D. rewrite Hv, Hs. unfold lat1, lat_after, lv.
+      rewrite (val_none (st_delta S) a) by (now apply (si_delta _ _ _ _ Inv)).
+      unfold some. rewrite (si_delta _ _ _ _ Inv a Hin). unfold val, get_def. rewrite (si_cum _ _ _ _ Inv a Hin).
+      destruct (last_report rep a) as [v|]; cbn [is_none negb].
+      - destruct (lat a); cbn [option_map a_val agg0]; repeat split; try lia; discriminate.
+      - repeat split; lia. }
     assert (Hcum1 : forall a, In a attrs -> st_cum S1 a = option_map (fun v => mk_agg v 0 false) (lat1 a)).
-    { intros a Hin. destruct (Ha a Hin) as [Hc _]. rewrite Hc. unfold lat1, lat_after.
+    { intros a Hin. destruct (Ha a Hin) as (Hc & _ & _). rewrite Hc. unfold lat1, lat_after.
       destruct (last_report rep a); [reflexivity|]. now apply (si_cum _ _ _ _ Inv). }
     assert (Htl1 : forall r' a, In a attrs -> tch1 r' a = true -> lat1 a <> None).
     { intros r' a Hin. unfold tch1, tch_after, lat1, lat_after. destruct (last_report rep a); cbn [is_none]; [discriminate|].
@@ -245,6 +259,7 @@ Section SumInstrument.
       + constructor; subst S2; cbn [st_delta st_cum st_unrep st_last].
         * reflexivity.
         * exact Hcum1.
+        * reflexivity.
         * intros r' a Hin. unfold tch_given. destruct (Nat.eqb r' 0); [discriminate|]. now apply Htl1.
         * intros _ a Hin. unfold base_given, tch_given. cbn [Nat.eqb]. split; [|reflexivity].
           destruct (Hf a Hin) as [Hb Ht]. destruct (HD a Hin) as (_ & _ & Hsame).
@@ -265,6 +280,7 @@ Section SumInstrument.
       + constructor.
         * intros a Hin. rewrite Hbd. reflexivity.
         * intros a Hin. rewrite Hbc. unfold S1'. cbn [st_cum]. now apply Hcum1.
+        * intros b _. rewrite Hbd. reflexivity.
         * intros r' a Hin. unfold tch_given. destruct (Nat.eqb r' r); [discriminate|]. now apply Htl1.
         * intros Hne. congruence.
         * intros _ r' Hr' a Hin. destruct (Hm r' Hr' a Hin) as [Hnone Hrest].
